@@ -88,6 +88,7 @@ class TriggerHandler:
         """
         self.__old_thread_trace = None
         self.__old_sys_trace = None
+        self.__installed = False
         self._push_service = push_service
         self._tp_config: List[Trigger] = []
         self._config = config
@@ -104,6 +105,7 @@ class TriggerHandler:
         # gettrace was added in 3.10, so use it if we can, else try to get from property
         # noinspection PyUnresolvedReferences,PyProtectedMember
         self.__old_thread_trace = threading.gettrace() if hasattr(threading, 'gettrace') else threading._trace_hook
+        self.__installed = True
         sys.settrace(self.trace_call)
         threading.settrace(self.trace_call)
 
@@ -232,5 +234,10 @@ class TriggerHandler:
 
         Reset the settrace to the previous values.
         """
+        # if we never installed our trace function (e.g. NO_TRACE) then there is nothing to restore, and we
+        # must not touch a trace function someone else (e.g. a debugger) has installed
+        if not self.__installed:
+            return
+        self.__installed = False
         sys.settrace(self.__old_sys_trace)
         threading.settrace(self.__old_thread_trace)
